@@ -5,6 +5,7 @@ package main
 import (
 	"fmt"
 	"go/types"
+	"regexp"
 	"strings"
 
 	"golang.org/x/tools/go/ssa"
@@ -229,6 +230,18 @@ func (v *Verifier) evalModEntry(fr *Frame, text string, vars map[string]Val, st 
 		et := v.resolveType(pkg, strings.TrimSuffix(strings.TrimPrefix(text, "elems("), ")"))
 		addLeaves("E:"+typeName(et), et, "", true)
 		return out
+	}
+	// objs(T).f: field f of every object of struct type T
+	if m := regexp.MustCompile(`^objs\(([^)]*)\)\.([A-Za-z0-9_]+)$`).FindStringSubmatch(text); m != nil {
+		ot := v.resolveType(pkg, m[1])
+		stt := ot.Underlying().(*types.Struct)
+		for i := 0; i < stt.NumFields(); i++ {
+			if stt.Field(i).Name() == m[2] {
+				addLeaves(fieldCompName(ot, m[2]), stt.Field(i).Type(), "", false)
+				return out
+			}
+		}
+		encFail("modifies %s: no such field", text)
 	}
 	// objs(T): every field of every object of struct type T (coarse: objects owned by pools / caches)
 	if strings.HasPrefix(text, "objs(") && strings.HasSuffix(text, ")") {
